@@ -7,6 +7,17 @@ use crate::spec::*;
 use std::collections::BTreeSet;
 use std::io::{self, Read, Seek, SeekFrom, Write};
 
+/// Global progress counter: bumped on every simulated I/O call and oracle step. The worker's
+/// heartbeat thread reports liveness to the supervisor only while this counter moves, so a long
+/// but progressing run is not mistaken for a hang, and a loop that never touches the simulated
+/// world still trips the wall-clock watchdog.
+pub static PROGRESS: std::sync::atomic::AtomicU64 = std::sync::atomic::AtomicU64::new(0);
+
+#[inline]
+pub fn progress() {
+    PROGRESS.fetch_add(1, std::sync::atomic::Ordering::Relaxed);
+}
+
 /// Payload of the unwind used to stop a run that makes no progress.
 #[derive(Debug)]
 pub struct NoProgress(pub String);
@@ -157,6 +168,7 @@ impl<'a> SimStream<'a> {
     }
 
     fn bump(&mut self) {
+        progress();
         self.total_calls += 1;
         if self.total_calls > self.call_budget {
             std::panic::resume_unwind(Box::new(NoProgress(format!(
@@ -376,6 +388,7 @@ impl SimSink {
 
 impl Write for SimSink {
     fn write(&mut self, buf: &[u8]) -> io::Result<usize> {
+        progress();
         let idx = self.calls;
         self.calls = self.calls.saturating_add(1);
         self.stats.writes += 1;
